@@ -5,6 +5,7 @@ import (
 	"go/constant"
 	"go/token"
 	"go/types"
+	"os"
 	"sort"
 	"strings"
 
@@ -35,14 +36,18 @@ type Config struct {
 	// Wide: thorough tier — every dynamic call may panic.
 	Wide  bool
 	Hooks Hooks
+	// NoMerge disables the merging of register environments at block
+	// entries (full path sensitivity on registers; for small functions).
+	NoMerge bool
 	// MaxStates bounds the exploration of one function entry (safety net).
 	MaxStates int
 }
 
 // Hooks let a run observe micro-events and maintain ghost state.
 type Hooks interface {
-	// OnStore is called before a store to a tracked object.
-	OnStore(c *Ctx, instr ssa.Instruction, addr Ptr, val AbsVal)
+	// OnStore is called before a store to a tracked object; a non-nil
+	// result replaces the stored value (ghost maintenance).
+	OnStore(c *Ctx, instr ssa.Instruction, addr Ptr, val AbsVal) AbsVal
 	// OnCall is called before any call whose callee is statically known
 	// (callee may be external). Returning handled=true makes the
 	// interpreter skip the call and use ret as its result.
@@ -57,6 +62,8 @@ type Hooks interface {
 	OnSliceStore(c *Ctx, instr ssa.Instruction, so SliceOf, val AbsVal)
 	// LenIsZero resolves len(so) == 0 from ghost state.
 	LenIsZero(c *Ctx, so SliceOf) (zero bool, known bool)
+	// OnPanic is called at an explicit panic statement that is modelled.
+	OnPanic(c *Ctx, instr ssa.Instruction)
 	// OnEscape is called when a tracked slice (or the address of its
 	// field) is converted, or returned from fn.
 	OnEscape(c *Ctx, instr ssa.Instruction, v AbsVal, how string)
@@ -65,7 +72,7 @@ type Hooks interface {
 // BaseHooks is a no-op Hooks for embedding.
 type BaseHooks struct{}
 
-func (BaseHooks) OnStore(*Ctx, ssa.Instruction, Ptr, AbsVal) {}
+func (BaseHooks) OnStore(*Ctx, ssa.Instruction, Ptr, AbsVal) AbsVal { return nil }
 func (BaseHooks) OnCall(*Ctx, ssa.Instruction, *ssa.Function, []AbsVal) (bool, AbsVal) {
 	return false, nil
 }
@@ -74,6 +81,7 @@ func (BaseHooks) OnDynamic(*Ctx, ssa.Instruction, []AbsVal, bool)               
 func (BaseHooks) AfterCall(*Ctx, ssa.Instruction, *ssa.Function, []AbsVal, Heap, Heap, bool) {}
 func (BaseHooks) OnSliceStore(*Ctx, ssa.Instruction, SliceOf, AbsVal)                        {}
 func (BaseHooks) LenIsZero(*Ctx, SliceOf) (bool, bool)                                       { return false, false }
+func (BaseHooks) OnPanic(*Ctx, ssa.Instruction)                                              {}
 func (BaseHooks) OnEscape(*Ctx, ssa.Instruction, AbsVal, string)                             {}
 
 // Ctx is what a hook sees.
@@ -106,7 +114,9 @@ func (e *Event) key() string {
 	sb.WriteString(e.Kind)
 	sb.WriteString("@")
 	if e.Instr != nil {
-		fmt.Fprintf(&sb, "%s#%p", e.Fn, e.Instr)
+		sb.WriteString(e.Fn.String())
+		sb.WriteString("#")
+		sb.WriteString(instrTag(e.Instr))
 	}
 	for _, k := range ks {
 		sb.WriteString("|" + k + "=" + e.Detail[k])
@@ -136,6 +146,10 @@ type Summary struct {
 	Outcomes map[string]*Outcome
 	round    int
 	busy     bool
+	final    bool // computed without consulting any incomplete summary
+	computed bool
+	deps     map[*Summary]int // consulted summaries and the outcome count seen
+	seq      int
 }
 
 func (s *Summary) SortedOutcomes() []*Outcome {
@@ -164,6 +178,11 @@ type Interp struct {
 	pathCache map[string]*pathInfo
 	Steps     int
 	States    int
+
+	StatesByFn    map[string]int
+	sawIncomplete bool
+	cur           *Summary
+	relevant      map[*ssa.Parameter]int // 0 unknown, 1 relevant, 2 irrelevant
 }
 
 func New(cfg Config) *Interp {
@@ -171,7 +190,7 @@ func New(cfg Config) *Interp {
 		cfg.MaxStates = 200000
 	}
 	return &Interp{Cfg: cfg, Summaries: map[string]*Summary{}, Events: map[string]*Event{},
-		crossBlk: map[*ssa.Function]map[ssa.Value]bool{}, pathCache: map[string]*pathInfo{}}
+		crossBlk: map[*ssa.Function]map[ssa.Value]bool{}, pathCache: map[string]*pathInfo{}, relevant: map[*ssa.Parameter]int{}, StatesByFn: map[string]int{}}
 }
 
 func (it *Interp) undecided(format string, a ...interface{}) {
@@ -196,6 +215,23 @@ func (it *Interp) Record(e Event) {
 		e.Chain = append(e.Chain, siteString(s))
 	}
 	it.Events[k] = &e
+}
+
+// instrTag is a run-independent identifier of an instruction in its function.
+func instrTag(i ssa.Instruction) string {
+	if cb, ok := i.(interface{ Inner() ssa.Instruction }); ok {
+		return "cb:" + instrTag(cb.Inner())
+	}
+	b := i.Block()
+	if b == nil {
+		return "?"
+	}
+	for k, in := range b.Instrs {
+		if in == i {
+			return fmt.Sprintf("%04d.%04d", b.Index, k)
+		}
+	}
+	return fmt.Sprintf("%04d.?", b.Index)
 }
 
 func siteString(i ssa.Instruction) string {
@@ -246,6 +282,20 @@ func (it *Interp) Run(roots []Root) {
 	}
 }
 
+// noteDep records that the summary being computed consults s.
+func (it *Interp) noteDep(s *Summary) {
+	if it.cur != nil && it.cur != s {
+		it.cur.deps[s] = -1 // count filled in by seenDep after the outcomes are read
+	}
+}
+
+// seenDep records how many outcomes of s the current computation used.
+func (it *Interp) seenDep(s *Summary) {
+	if it.cur != nil && it.cur != s {
+		it.cur.deps[s] = len(s.Outcomes)
+	}
+}
+
 // Rounds reports how many global iterations were needed.
 func (it *Interp) Rounds() int { return it.round }
 
@@ -290,6 +340,28 @@ type State struct {
 	Panicking bool // frame is unwinding because of a panic
 }
 
+// DeferredCallees lists the statically known callees on the defer stack,
+// innermost last.
+func (s *State) DeferredCallees() []string {
+	var out []string
+	for _, d := range s.Defers {
+		if f := d.call.Common().StaticCallee(); f != nil {
+			out = append(out, f.String())
+		} else {
+			out = append(out, "?")
+		}
+	}
+	return out
+}
+
+// Reg returns the abstract value of an SSA value in this frame.
+func (s *State) Reg(v ssa.Value) AbsVal {
+	if a, ok := s.Regs[v]; ok {
+		return a
+	}
+	return Top{}
+}
+
 func (s *State) clone() *State {
 	n := &State{Regs: make(map[ssa.Value]AbsVal, len(s.Regs)), Heap: s.Heap.clone(), Panicking: s.Panicking}
 	for k, v := range s.Regs {
@@ -323,10 +395,73 @@ func (s *State) key() string {
 }
 
 type work struct {
-	blk  *ssa.BasicBlock // nil = unwinding (running defers after panic / recover)
-	idx  int
-	prev *ssa.BasicBlock
-	st   *State
+	blk   *ssa.BasicBlock // nil = unwinding (running defers after panic / recover)
+	idx   int
+	prev  *ssa.BasicBlock
+	st    *State
+	entry bool // block entry: memoise / merge here
+}
+
+// groupKey identifies the states that are merged at a block entry: equal
+// tracked heap, defer stack and unwinding flag (property simulation).
+func (s *State) groupKey() string {
+	var sb strings.Builder
+	sb.WriteString(s.Heap.key())
+	sb.WriteString("#")
+	for _, d := range s.Defers {
+		sb.WriteString(d.key())
+	}
+	if s.Panicking {
+		sb.WriteString("!P")
+	}
+	if _, ok := s.Regs[recoveredMarker]; ok {
+		sb.WriteString("!R")
+	}
+	return sb.String()
+}
+
+// joinRegs joins b into a (flat lattice: unequal values become Top, i.e.
+// are dropped). It reports whether the result differs from a.
+func joinRegs(a, b map[ssa.Value]AbsVal) (map[ssa.Value]AbsVal, bool) {
+	changed := false
+	out := make(map[ssa.Value]AbsVal, len(a))
+	for k, v := range a {
+		if w, ok := b[k]; ok && w.Key() == v.Key() {
+			out[k] = v
+		} else {
+			changed = true
+		}
+	}
+	return out, changed
+}
+
+// enter moves st along the edge from->to: phis of `to` are evaluated in
+// parallel for that edge.
+func (it *Interp) enter(fn *ssa.Function, st *State, from, to *ssa.BasicBlock) work {
+	pi := -1
+	for i, p := range to.Preds {
+		if p == from {
+			pi = i
+			break
+		}
+	}
+	idx := 0
+	vals := map[*ssa.Phi]AbsVal{}
+	for ; idx < len(to.Instrs); idx++ {
+		ph, ok := to.Instrs[idx].(*ssa.Phi)
+		if !ok {
+			break
+		}
+		if pi < 0 {
+			it.undecided("phi without predecessor in %s", fn)
+			break
+		}
+		vals[ph] = it.eval(st, ph.Edges[pi])
+	}
+	for ph, v := range vals {
+		setReg(st, ph, v)
+	}
+	return work{blk: to, idx: idx, prev: from, st: st, entry: true}
 }
 
 func (it *Interp) analyze(fn *ssa.Function, args []AbsVal, heap Heap, panicCtx bool) *Summary {
@@ -337,16 +472,59 @@ func (it *Interp) analyzeB(fn *ssa.Function, args, bindings []AbsVal, heap Heap,
 	key := summaryKey(fn, append(append([]AbsVal{}, args...), bindings...), heap, panicCtx)
 	sum := it.Summaries[key]
 	if sum == nil {
-		sum = &Summary{Fn: fn, Args: args, Bindings: bindings, Entry: heap, PanicCtx: panicCtx, Outcomes: map[string]*Outcome{}}
+		sum = &Summary{Fn: fn, Args: args, Bindings: bindings, Entry: heap, PanicCtx: panicCtx, Outcomes: map[string]*Outcome{}, seq: len(it.Summaries)}
 		it.Summaries[key] = sum
 		it.changed = true
 	}
-	if sum.busy || sum.round == it.round {
+	it.noteDep(sum)
+	if sum.final {
 		return sum
 	}
-	sum.busy = true
+	if sum.busy || sum.round == it.round {
+		it.sawIncomplete = true
+		return sum
+	}
 	sum.round = it.round
-	defer func() { sum.busy = false }()
+	if sum.computed && os.Getenv("REDACTCHECK_NAIVE") == "" {
+		// semi-naive: recompute only if something it consulted has grown.
+		ds := make([]*Summary, 0, len(sum.deps))
+		for d := range sum.deps {
+			ds = append(ds, d)
+		}
+		sort.Slice(ds, func(i, j int) bool { return ds[i].seq < ds[j].seq })
+		saveCur := it.cur
+		it.cur = nil
+		for _, d := range ds {
+			it.analyzeB(d.Fn, d.Args, d.Bindings, d.Entry, d.PanicCtx)
+		}
+		it.cur = saveCur
+		stale := false
+		for d, seen := range sum.deps {
+			if len(d.Outcomes) != seen {
+				stale = true
+				break
+			}
+		}
+		if !stale {
+			it.sawIncomplete = true // still provisional
+			return sum
+		}
+	}
+	sum.busy = true
+	sum.computed = true
+	sum.deps = map[*Summary]int{}
+	outerSaw := it.sawIncomplete
+	it.sawIncomplete = false
+	saveCur := it.cur
+	it.cur = sum
+	defer func() {
+		it.cur = saveCur
+		sum.busy = false
+		if !it.sawIncomplete && len(it.Undecided) == 0 {
+			sum.final = true
+		}
+		it.sawIncomplete = it.sawIncomplete || outerSaw
+	}()
 
 	if fn.Blocks == nil {
 		it.undecided("function without body reached as in-module: %s", fn)
@@ -366,8 +544,8 @@ func (it *Interp) analyzeB(fn *ssa.Function, args, bindings []AbsVal, heap Heap,
 		}
 	}
 	cross := it.crossBlock(fn)
-	visited := map[string]bool{}
-	wl := []work{{blk: fn.Blocks[0], st: st}}
+	table := map[string]map[ssa.Value]AbsVal{}
+	wl := []work{{blk: fn.Blocks[0], st: st, entry: true}}
 	nstates := 0
 	addOutcome := func(o *Outcome) {
 		k := o.key()
@@ -379,8 +557,8 @@ func (it *Interp) analyzeB(fn *ssa.Function, args, bindings []AbsVal, heap Heap,
 	for len(wl) > 0 {
 		w := wl[len(wl)-1]
 		wl = wl[:len(wl)-1]
-		if w.blk != nil && w.idx == 0 {
-			// prune dead registers, then memoise.
+		if w.blk != nil && w.entry {
+			// prune dead registers, then memoise / merge.
 			for r := range w.st.Regs {
 				if !cross[r] {
 					if _, isParam := r.(*ssa.Parameter); !isParam {
@@ -392,17 +570,29 @@ func (it *Interp) analyzeB(fn *ssa.Function, args, bindings []AbsVal, heap Heap,
 					}
 				}
 			}
-			pi := -1
-			if w.prev != nil {
-				pi = w.prev.Index
+			var k string
+			if it.Cfg.NoMerge {
+				k = fmt.Sprintf("%d|%s", w.blk.Index, w.st.key())
+				if _, seen := table[k]; seen {
+					continue
+				}
+				table[k] = nil
+			} else {
+				k = fmt.Sprintf("%d|%s", w.blk.Index, w.st.groupKey())
+				if old, seen := table[k]; seen {
+					joined, changed := joinRegs(old, w.st.Regs)
+					if !changed {
+						continue
+					}
+					table[k] = joined
+					w.st.Regs = copyRegs(joined)
+				} else {
+					table[k] = copyRegs(w.st.Regs)
+				}
 			}
-			k := fmt.Sprintf("%d<%d|%s", w.blk.Index, pi, w.st.key())
-			if visited[k] {
-				continue
-			}
-			visited[k] = true
 			nstates++
 			it.States++
+			it.StatesByFn[fn.String()]++
 			if nstates > it.Cfg.MaxStates {
 				it.undecided("state bound exceeded in %s", fn)
 				return sum
@@ -416,7 +606,7 @@ func (it *Interp) analyzeB(fn *ssa.Function, args, bindings []AbsVal, heap Heap,
 					_, rec := st.Regs[recoveredMarker]
 					addOutcome(&Outcome{Heap: st.Heap, Ret: Top{}, Exc: true, Recovered: rec})
 				} else if fn.Recover != nil {
-					wl = append(wl, work{blk: fn.Recover, st: st})
+					wl = append(wl, work{blk: fn.Recover, st: st, entry: true})
 				} else {
 					_, rec := st.Regs[recoveredMarker]
 					addOutcome(&Outcome{Heap: st.Heap, Ret: zeroRet(fn), Recovered: rec})
@@ -509,31 +699,7 @@ func (it *Interp) execBlock(fn *ssa.Function, sum *Summary, w work, panicCtx boo
 		ins := blk.Instrs[idx]
 		switch ins := ins.(type) {
 		case *ssa.Phi:
-			pi := -1
-			for i, p := range blk.Preds {
-				if p == w.prev {
-					pi = i
-					break
-				}
-			}
-			if pi < 0 {
-				it.undecided("phi without predecessor in %s", fn)
-				return
-			}
-			// Phis are evaluated in parallel: collect first.
-			vals := map[*ssa.Phi]AbsVal{}
-			j := idx
-			for ; j < len(blk.Instrs); j++ {
-				ph, ok := blk.Instrs[j].(*ssa.Phi)
-				if !ok {
-					break
-				}
-				vals[ph] = it.eval(st, ph.Edges[pi])
-			}
-			for ph, v := range vals {
-				setReg(st, ph, v)
-			}
-			idx = j - 1
+			it.undecided("phi reached outside block entry in %s", fn)
 		case *ssa.DebugRef:
 		case *ssa.Alloc:
 			id := fmt.Sprintf("L%d.%d", blk.Index, idx)
@@ -551,7 +717,9 @@ func (it *Interp) execBlock(fn *ssa.Function, sum *Summary, w work, panicCtx boo
 			val := it.eval(st, ins.Val)
 			if p, ok := addr.(Ptr); ok {
 				if it.Cfg.Hooks != nil {
-					it.Cfg.Hooks.OnStore(it.ctx(fn, st), ins, p, val)
+					if nv := it.Cfg.Hooks.OnStore(it.ctx(fn, st), ins, p, val); nv != nil {
+						val = nv
+					}
 				}
 				it.store(st.Heap, p, val, ins.Val.Type())
 			} else if so, ok := addr.(SliceOf); ok && it.Cfg.Hooks != nil {
@@ -703,6 +871,9 @@ func (it *Interp) execBlock(fn *ssa.Function, sum *Summary, w work, panicCtx boo
 			if it.Cfg.NoPanicPkgs[pkgPath(fn)] {
 				return // not modelled: path ends
 			}
+			if it.Cfg.Hooks != nil {
+				it.Cfg.Hooks.OnPanic(it.ctx(fn, st), ins)
+			}
 			st.Panicking = true
 			*wl = append(*wl, work{blk: nil, st: st})
 			return
@@ -724,22 +895,22 @@ func (it *Interp) execBlock(fn *ssa.Function, sum *Summary, w work, panicCtx boo
 			addOutcome(&Outcome{Heap: st.Heap, Ret: ret, Recovered: rec})
 			return
 		case *ssa.Jump:
-			*wl = append(*wl, work{blk: blk.Succs[0], prev: blk, st: st})
+			*wl = append(*wl, it.enter(fn, st, blk, blk.Succs[0]))
 			return
 		case *ssa.If:
 			c := it.eval(st, ins.Cond)
 			if b, ok := asBool(c); ok {
 				if b {
-					*wl = append(*wl, work{blk: blk.Succs[0], prev: blk, st: st})
+					*wl = append(*wl, it.enter(fn, st, blk, blk.Succs[0]))
 				} else {
-					*wl = append(*wl, work{blk: blk.Succs[1], prev: blk, st: st})
+					*wl = append(*wl, it.enter(fn, st, blk, blk.Succs[1]))
 				}
 			} else {
 				s2 := st.clone()
 				it.refine(st, ins.Cond, true)
 				it.refine(s2, ins.Cond, false)
-				*wl = append(*wl, work{blk: blk.Succs[1], prev: blk, st: s2})
-				*wl = append(*wl, work{blk: blk.Succs[0], prev: blk, st: st})
+				*wl = append(*wl, it.enter(fn, s2, blk, blk.Succs[1]))
+				*wl = append(*wl, it.enter(fn, st, blk, blk.Succs[0]))
 			}
 			return
 		default:
